@@ -39,6 +39,21 @@ checks.update({
    note="Scope coverage judged by refstrat.go (independent implementation of the documented strategies)."),
 })
 
+checks.update({
+ "C06": dict(level="exploration", engine="ENUM", ref="DESIGN.md §5 C06",
+   technique="exhaustive enumeration of a mutation grammar over genuine credentials (all single-bit flips, all truncations, all part swaps, prefixes, re-encodings, secrets, hash functions, JWT header/payload/signature manipulations), each mutant presented end to end to the real provider and judged by a reference HMAC",
+   text="For every hash function x entropy x refresh lifespan configuration, four genuine credentials are minted and every mutant of the grammar is presented at the endpoint that accepts the kind; an accepted string must authenticate under a configured >=32-byte secret per an independent HMAC computation. 8 secret-rotation scenarios, short secrets, JWT algorithm confusion for 4 signing keys, and structural minting checks (bytes drawn, embedding, distinctness) through a counting deterministic random source.",
+   note="Strings decoding to the genuine bytes are don't-care; entropy is checked structurally (crypto/rand quality assumed)."),
+ "C12": dict(level="exploration", engine="ENUM", ref="DESIGN.md §5 C12",
+   technique="exhaustive enumeration of all (registered, requested) string pairs over a segment alphabet and of a URL grid against documented semantics (two-sided), plus the full flow x strategy x request-family product on the real provider (one-sided)",
+   text="Part 1 compares the three scope strategies and two audience strategies with an independent transcription of the documentation on every pair of dotted strings over {a,b,ab,*,empty} up to 3 (quick) / 4 (thorough) segments and every pair of a 72-URL grid. Part 2 runs 11 flows x 3 scope strategies x 2 audience strategies x 12 scope families x 8 audience families on a fresh provider: uncovered requests must issue nothing and token scope/audience must stay within the grant.",
+   note="Documentation-undefined inputs (empty segments absorbed by a trailing wildcard, host case) are don't-care."),
+ "C16": dict(level="model_checking", engine="SEQ", ref="DESIGN.md §5 C16",
+   technique="exhaustive enumeration (iterative deepening) of all operation sequences up to a depth over <=2 device flows on the real provider with a lock-step model, for the reference store and a contract-following store",
+   text="Every sequence of device_auth / accept / accept-with-replaced-session / reject / poll (right, wrong, wrong client with body client_id; genuine, forged random part, forged with the user-code signature) / advance up to depth 5 (one flow) and 4 (two flows) [7/6 thorough], on both stores; tokens only for accepted, unexpired, unconsumed flows polled by the right client with the genuine code; error classes where exactly one clause applies; replay on the contract store must leave the first pair inactive; codes reach storage only as signatures.",
+   note="randx user-code randomness cannot be intercepted; checked for distinctness only."),
+})
+
 # properties not (yet) claimed: reason
 not_applicable = {
 }
@@ -58,8 +73,8 @@ man = {
  },
  "engines": [
   {"name": "HIST", "path": "h/fam.go", "serves_properties": ["C01", "C04", "C08", "C09"], "kind_free_text": "explicit-state breadth-first search over API histories of the real provider, lock-step reference model, worker subprocesses, global dedup on canonical store dump"},
-  {"name": "SEQ", "path": "h/c03.go", "serves_properties": ["C03"], "kind_free_text": "exhaustive bounded enumeration of operation sequences on the real provider"},
-  {"name": "ENUM", "path": "h/c02.go h/c05.go", "serves_properties": ["C02", "C05"], "kind_free_text": "exhaustive enumeration of finite input/configuration/history-position products, each case executed on a fresh real provider and judged by an independent reference predicate"},
+  {"name": "SEQ", "path": "h/c03.go", "serves_properties": ["C03", "C16"], "kind_free_text": "exhaustive bounded enumeration of operation sequences on the real provider"},
+  {"name": "ENUM", "path": "h/c02.go h/c05.go h/c06.go h/c12.go", "serves_properties": ["C02", "C05", "C06", "C12"], "kind_free_text": "exhaustive enumeration of finite input/configuration/history-position products, each case executed on a fresh real provider and judged by an independent reference predicate"},
  ],
  "checks": [],
  "notes": "All checks rebuild the instrumented harness from /repo's working tree (./verif). Violations are re-executed 5x from their artefact before being reported; known findings live in /verif/known_findings.json.",
